@@ -81,6 +81,87 @@ class InitDomain:
         self.rets.append((n, s))
 
 
+class _ErrnoDomain:
+    """errno is process-wide state that survives from earlier calls: a read of it is only a statement about the present call
+    when the same function cleared it first (state 'clean'); every other read makes the result depend on history"""
+
+    def __init__(self, prog=None, depth=0):
+        self.viol, self.nreads = [], 0
+        self.prog, self.depth = prog, depth
+        self.rets = []
+
+    def copy(self, s): return s
+    def join(self, a, b): return "clean" if a == b == "clean" else "dirty"
+
+    def _callee_clears(self, name):
+        """does the library function leave errno cleared-then-only-set-by-its-own-calls on every return"""
+        if self.prog is None or self.depth > 3 or name not in self.prog.lib_functions():
+            return False
+        f = self.prog.lib_functions()[name]
+        sub = _ErrnoDomain(self.prog, self.depth + 1)
+        end = Flow(sub).function(self.prog, f, "dirty")
+        states = [st for _, st in sub.rets] + ([end] if end is not None else [])
+        return bool(states) and all(st == "clean" for st in states)
+    def equal(self, a, b): return a == b
+    def widen(self, o, n): return n
+
+    @staticmethod
+    def _is_errno(e):
+        e = strip(e, casts=True)
+        if e.get("kind") == "UnaryOperator" and e.get("opcode") == "*":
+            c = strip(kids(e)[0], casts=True)
+            return c.get("kind") == "CallExpr" and callee_name(c) == "__errno_location"
+        return e.get("kind") == "DeclRefExpr" and ref_name(e) == "errno"
+
+    def decl(self, vd, s):
+        for c in kids(vd):
+            s = self.eval(c, s)
+        return s
+
+    def eval(self, e, s):
+        e0 = strip(e)
+        if not e0:
+            return s
+        ks = kids(e0)
+        if e0.get("kind") == "BinaryOperator" and e0.get("opcode") == "=" and self._is_errno(ks[0]):
+            s = self.eval(ks[1], s)
+            v = strip(ks[1], casts=True)
+            return "clean" if v.get("kind") == "IntegerLiteral" and int(v.get("value", "1")) == 0 else "dirty"
+        if self._is_errno(e0):
+            self.nreads += 1
+            if s != "clean":
+                self.viol.append(e0)
+            return s
+        for c in ks:
+            s = self.eval(c, s)
+        if e0.get("kind") == "CallExpr" and callee_name(e0) != "__errno_location" and self._callee_clears(callee_name(e0)):
+            s = "clean"
+        return s
+
+    def assume(self, e, t, s): return s
+
+    def ret(self, n, s):
+        self.rets.append((n, s))
+
+
+def errno_rule(chk, prog, rule="ERRNO"):
+    n = 0
+    for fn, f in sorted(prog.lib_functions().items()):
+        if not any(m.get("kind") == "CallExpr" and callee_name(m) == "__errno_location" or
+                   (m.get("kind") == "DeclRefExpr" and ref_name(m) == "errno") for m in walk(prog.body(f))):
+            continue
+        dom = _ErrnoDomain(prog)
+        Flow(dom).function(prog, f, "dirty")
+        n += dom.nreads
+        if dom.viol:
+            chk.bad(rule, "%s/%s" % (rule, fn), loc_str(dom.viol[0]),
+                    "errno is read only after the same function cleared it (a value left by an earlier call is history)",
+                    "%s reads errno that may have been set before this call" % fn)
+        else:
+            chk.ok(rule, "%s/%s" % (rule, fn), loc_str(f), "%s reads errno only after clearing it" % fn)
+    chk.ok(rule, "%s/inventory" % rule, "src/", "errno reads in the library: %d, each preceded by a clear in the same function" % n)
+
+
 def run(chk, prog, tier):
     roles = PL.Roles(prog)
     chk.analysed["roles"] = roles.describe()
@@ -161,6 +242,11 @@ def run(chk, prog, tier):
     from checks import C17
     n = C17.atomic_rule(chk, prog, [roles.room_check])
     chk.floor("failing returns of the room check", n, 2)
+    errno_rule(chk, prog)
+    # emitted bytes do not depend on what an earlier call left in the buffer: every encoder function writes every byte below
+    # the length it returns (symbolic write-coverage), and never reads its destination
+    from valib import cover as CV
+    CV.cover_rule(chk, prog, roles)
     try:
         from valib import absint as ABS
         ABS.sentinel_rule(chk, prog, roles)
